@@ -17,6 +17,7 @@ EXPLANATION = (
     "_collect_by_type groups by type(v); (d) diff_jobs is set algebra over the flattened (dotted key, value) pairs of each "
     "job: intersection over all jobs, per-job difference, no presence test that conflates a missing key with a None value."
     ' (f) The schema and diff loops carry nothing between keys / jobs.'
+    ' The index that is summarised walks the directory listing: _build_index never iterates ids handed in by the caller (membership would then be decided by the state point cache).'
 )
 UNDECIDED = "Exactness for all corpora and the reconstruction property of diff_jobs are value-level and not decided."
 
